@@ -17,6 +17,7 @@ from mc import bmff, core, crawl, mpd, world as W
 
 ID = 'C01'
 LEVEL = 'model_checking'
+PREFORK_WORLD = {}
 RULE = ('state = (stream, template, option vector, magnitude class, critical-instant index); transition = one '
         'request issued at that instant; non-trivial = a (config, instant, representation, segment) that the 200 '
         'manifest made addressable and that was fetched')
@@ -146,7 +147,7 @@ def plan(tier):
                 if opts.get('timeline') and tmpl not in TIMELINE_CAPABLE:
                     continue
                 items.append({'stream': stream, 'template': tmpl, 'opts': opts, 'tier': tier,
-                              'stride': 2 if tier != 'quick' else 8})
+                              'stride': 2 if tier != 'quick' else 16})
     for stream in ('bbb', 'tears'):
         cfgs = config_list(tier, stream)
         for tmpl, opts, stride in cfgs:
@@ -154,7 +155,7 @@ def plan(tier):
                 continue
             main = tmpl in ('hand_made', 'manifest_n', 'manifest_e')
             if tier == 'quick':
-                stride *= 12 if main else 36
+                stride *= 24 if main else 72
             else:
                 stride *= 5 if main else 15
             items.append({'stream': stream, 'template': tmpl, 'opts': opts, 'stride': stride, 'tier': tier})
